@@ -279,6 +279,48 @@ fn authority_rotations(spec: &RichSpec, l: &mut Local) -> Result<(), String> {
         let mut w_new = w1.clone();
         let ok = w_new.exec(&as_new).ok();
         l.count(&format!("rotation/{}", if ok { "new_authority_accepted" } else { "new_authority_refused(positive control)" }));
+        // (3) and with nobody else: a key that never held the role
+        let outsider = Pubkey::new_unique();
+        let sign_as = |who: Pubkey| {
+            let mut ix = follow.clone();
+            for m in ix.accounts.iter_mut() {
+                if m.pubkey == old && m.is_signer {
+                    m.pubkey = who;
+                }
+            }
+            ix
+        };
+        if w1.clone().exec(&sign_as(outsider)).ok() {
+            return Err(format!("{name}: after the rotation an instruction of that role signed by an outsider succeeds"));
+        }
+        // (4) revocation: where the setter accepts the all-zero key as new authority, the role is held by NOBODY afterwards
+        let mut revoke = rot.clone();
+        for m in revoke.accounts.iter_mut() {
+            if m.pubkey == newk {
+                m.pubkey = Pubkey::default();
+            }
+        }
+        let nb = newk.to_bytes();
+        let mut i = 0;
+        while i + 32 <= revoke.data.len() {
+            if revoke.data[i..i + 32] == nb {
+                revoke.data[i..i + 32].copy_from_slice(&[0u8; 32]);
+                i += 32;
+            } else {
+                i += 1;
+            }
+        }
+        let mut w2 = w.clone();
+        if w2.exec(&revoke).ok() {
+            for (who, what) in [(old, "the former authority"), (outsider, "an outsider"), (newk, "another key")] {
+                if w2.clone().exec(&sign_as(who)).ok() {
+                    return Err(format!("{name}: after the authority was set to the all-zero key (revoked), an instruction of that role signed by {what} succeeds"));
+                }
+            }
+            l.count(&format!("rotation/revoked_to_zero_key_then_everyone_refused/{name}"));
+        } else {
+            l.count(&format!("rotation/zero_key_not_accepted_as_authority/{name}"));
+        }
         l.nontrivial(hash_of(&(name, "rotation", hash_of(spec))));
     }
     Ok(())
